@@ -197,13 +197,14 @@ func (s *seededGate) run(deadline time.Duration) {
 			if idle > 200 {
 				time.Sleep(200 * time.Microsecond)
 			}
-			if time.Since(start) > deadline {
+			if time.Since(start) > deadline { // nothing reached a gate or finished for this long
 				s.stuck = true
 				return
 			}
 			continue
 		}
 		idle = 0
+		start = time.Now()
 		sort.Slice(s.waiters, func(i, j int) bool {
 			if s.waiters[i].p != s.waiters[j].p {
 				return s.waiters[i].p < s.waiters[j].p
@@ -687,7 +688,7 @@ func randomSpec(r *mrand.Rand, id int, big bool) pipeSpec {
 // childGated: N pipelines interleaved at their gates by a seeded scheduler on one P.
 func childGated(o *output) {
 	getKeys()
-	n := ev.Pick(400, 4000)
+	n := ev.Pick(400, 10000)
 	r := mrand.New(mrand.NewSource(ev.Seed()*7919 + 11))
 	for i := 0; i < n; i++ {
 		np := 2 + r.Intn(3)
@@ -716,9 +717,9 @@ func childGated(o *output) {
 				g.mu.Unlock()
 			}()
 		}
-		g.run(60 * time.Second)
+		g.run(120 * time.Second)
 		if g.stuck {
-			tr.ev("step", tv.M{"p": 1, "op": "stuck: no goroutine reached a gate or finished for 60s"})
+			tr.ev("step", tv.M{"p": 1, "op": "stuck: no goroutine reached a gate or finished for 120s"})
 			go g.releaseAll()
 		}
 		g.mu.Lock()
